@@ -194,3 +194,40 @@ pub fn eq(a: &[u8], b: &[u8]) -> bool {
     }
     true
 }
+
+/// stand-in for `core::ptr::copy` (memmove) under Kani: a byte loop instead of CBMC's array copy,
+/// whose constraints exhaust the solver's memory once the copied buffer is searched afterwards
+pub unsafe fn byte_copy<T>(src: *const T, dst: *mut T, count: usize) {
+    let n = count * core::mem::size_of::<T>();
+    let s = src as *const u8;
+    let d = dst as *mut u8;
+    if (d as usize) <= (s as usize) {
+        let mut i = 0;
+        while i < n {
+            *d.add(i) = *s.add(i);
+            i += 1;
+        }
+    } else {
+        let mut i = n;
+        while i > 0 {
+            i -= 1;
+            *d.add(i) = *s.add(i);
+        }
+    }
+}
+
+/// stand-in for `std::alloc::realloc` under Kani: allocate, copy byte by byte, free (Kani's own
+/// model copies with CBMC's array primitives, whose constraints exhaust the solver's memory once
+/// the buffer is searched afterwards)
+pub unsafe fn byte_realloc(ptr: *mut u8, layout: std::alloc::Layout, new_size: usize) -> *mut u8 {
+    let new_layout = std::alloc::Layout::from_size_align_unchecked(new_size, layout.align());
+    let new = std::alloc::alloc(new_layout);
+    let n = if layout.size() < new_size { layout.size() } else { new_size };
+    let mut i = 0;
+    while i < n {
+        *new.add(i) = *ptr.add(i);
+        i += 1;
+    }
+    std::alloc::dealloc(ptr, layout);
+    new
+}
